@@ -354,9 +354,24 @@ def «wait_defer» : Stmt :=
   block [(.prim none .udec [.addrGlob "defer_thread_futex", .cst "CMM_RELAXED" (0)]), (.prim none .mb []), (.prim (some "_t1") .uload [.addrGlob "defer_thread_stop", .cst "CMM_RELAXED" (0)]), (.ifte (.var "_t1") (block [(.prim none .ustore [.addrGlob "defer_thread_futex", .lit 0, .cst "CMM_RELAXED" (0)]), (.prim none (.ext "pthread_exit") [.lit 0])]) (.skip)), (.prim (some "_t2") (.ext "rcu_defer_num_callbacks") []), (.ifte (.var "_t2") (block [(.prim none .mb []), (.prim none .ustore [.addrGlob "defer_thread_futex", .lit 0, .cst "CMM_RELAXED" (0)])]) (block [(.prim none .rmb []), (.loop (block [(.prim (some "_t3") .uload [.addrGlob "defer_thread_futex", .cst "CMM_RELAXED" (0)]), (.ifte (.bin .eq (.var "_t3") (.lit (-1))) (block [(.prim (some "_t4") (.ext "futex_noasync") [.addrGlob "defer_thread_futex", .cst "FUTEX_WAIT" (0), .lit (-1), .null, .null, .lit 0]), (.ifte (.un .lnot (.var "_t4")) (.cont) (.skip)), (.prim (some "_t5") (.ext "errno") []), (.assign "_t6" (.var "_t5")), (.ifte (.bin .eq (.var "_t6") (.cst "EAGAIN" (11))) (.ret none) (.ifte (.bin .eq (.var "_t6") (.cst "EINTR" (4))) (.skip) (block [(.prim (some "_t7") (.ext "errno") []), (.prim none (.ext "urcu_die") [.var "_t7"])])))]) (.brk))]))]))]
 def «wait_defer.params» : List String := []
 
+/-- `_cds_wfs_first` (include/urcu/static/wfstack.h) -/
+def «_cds_wfs_first» : Stmt :=
+  block [(.call (some "_t1") ["node"] [.var "head"] «___cds_wfs_end»), (.ifte (.var "_t1") (.ret (some (.null))) (.skip)), (.ret (some (.var "head")))]
+def «_cds_wfs_first.params» : List String := ["head"]
+
+/-- `___cds_wfs_next` (include/urcu/static/wfstack.h) -/
+def «___cds_wfs_next» : Stmt :=
+  block [(.call (some "_t1") ["node", "blocking"] [.var "node", .var "blocking"] «___cds_wfs_node_sync_next»), (.assign "next" (.var "_t1")), (.call (some "_t2") ["node"] [.var "next"] «___cds_wfs_end»), (.ifte (.var "_t2") (.ret (some (.null))) (.skip)), (.ret (some (.var "next")))]
+def «___cds_wfs_next.params» : List String := ["node", "blocking"]
+
+/-- `_cds_wfs_next_blocking` (include/urcu/static/wfstack.h) -/
+def «_cds_wfs_next_blocking» : Stmt :=
+  block [(.call (some "_t1") ["node", "blocking"] [.var "node", .lit 1] «___cds_wfs_next»), (.ret (some (.var "_t1")))]
+def «_cds_wfs_next_blocking.params» : List String := ["node"]
+
 /-- `urcu_wake_all_waiters` (src/urcu-wait.h) -/
 def «urcu_wake_all_waiters» : Stmt :=
-  block [(.prim (some "_t1") (.ext "cds_wfs_for_each_blocking_safe.first") [.pload (.fieldAddr (.var "waiters") "head")]), (.loop (block [(.assign "iter" (.var "_t1")), (.ifte (.var "iter") (.skip) (.brk)), (.prim (some "_t1") (.ext "cds_wfs_for_each_blocking_safe.next") ([.pload (.fieldAddr (.var "waiters") "head")] ++ [.var "iter"])), (.assign "iter_n" (.var "_t1")), (.assign "wait_node" (.var "iter")), (.prim (some "_t2") .uload [.fieldAddr (.var "wait_node") "state", .cst "CMM_RELAXED" (0)]), (.ifte (.bin .band (.var "_t2") (.cst "URCU_WAIT_RUNNING" (2))) (.cont) (.skip)), (.call none ["wait"] [.var "wait_node"] «urcu_adaptative_wake_up»)]))]
+  block [(.call (some "_t3") ["head"] [.pload (.fieldAddr (.var "waiters") "head")] «_cds_wfs_first»), (.assign "_t1" (.var "_t3")), (.loop (block [(.assign "iter" (.var "_t1")), (.ifte (.var "iter") (.skip) (.brk)), (.call (some "_t4") ["node"] [.var "iter"] «_cds_wfs_next_blocking»), (.assign "_t1" (.var "_t4")), (.assign "iter_n" (.var "_t1")), (.assign "wait_node" (.var "iter")), (.prim (some "_t2") .uload [.fieldAddr (.var "wait_node") "state", .cst "CMM_RELAXED" (0)]), (.ifte (.bin .band (.var "_t2") (.cst "URCU_WAIT_RUNNING" (2))) (.cont) (.skip)), (.call none ["wait"] [.var "wait_node"] «urcu_adaptative_wake_up»)]))]
 def «urcu_wake_all_waiters.params» : List String := ["waiters"]
 
 /-- `smp_mb_master` (src/urcu.c, with RCU_MEMBARRIER) -/
@@ -461,5 +476,5 @@ def «bp.urcu_bp_synchronize_rcu.params» : List String := []
 
 /-- functions the translator could not express in the IR subset (listed, never defaulted) -/
 def untranslated : List String := []
-def translated : List String := ["urcu_memb_smp_mb_slave", "_urcu_memb_read_lock_update", "_urcu_memb_read_lock", "urcu_common_wake_up_gp", "_urcu_memb_read_unlock_update_and_wakeup", "_urcu_memb_read_unlock", "_urcu_memb_read_ongoing", "_urcu_mb_read_lock_update", "_urcu_mb_read_lock", "_urcu_mb_read_unlock_update_and_wakeup", "_urcu_mb_read_unlock", "_urcu_mb_read_ongoing", "urcu_bp_smp_mb_slave", "_urcu_bp_read_lock_update", "_urcu_bp_read_lock", "_urcu_bp_read_unlock", "_urcu_bp_read_ongoing", "_urcu_qsbr_read_lock", "_urcu_qsbr_read_unlock", "_urcu_qsbr_read_ongoing", "urcu_qsbr_wake_up_gp", "_urcu_qsbr_quiescent_state_update_and_wakeup", "_urcu_qsbr_quiescent_state", "_urcu_qsbr_thread_offline", "_urcu_qsbr_thread_online", "___cds_wfs_end", "_cds_wfs_push", "___cds_wfs_node_sync_next", "___cds_wfs_pop", "___cds_wfs_pop_all", "_cds_wfs_empty", "___cds_lfs_empty_head", "_cds_lfs_push", "___cds_lfs_pop", "___cds_lfs_pop_all", "_cds_lfs_empty", "___cds_wfcq_append", "_cds_wfcq_enqueue", "_cds_wfcq_empty", "___cds_wfcq_busy_wait", "___cds_wfcq_node_sync_next", "_cds_wfcq_node_init_atomic", "___cds_wfcq_dequeue_with_state", "___cds_wfcq_splice", "_cds_lfq_enqueue_rcu", "make_dummy", "enqueue_dummy", "rcu_free_dummy", "_cds_lfq_dequeue_rcu", "urcu_ref_get_safe", "urcu_ref_put", "urcu_ref_get_unless_zero", "urcu_wait_add", "urcu_move_waiters", "urcu_wait_set_state", "urcu_wait_node_init", "urcu_adaptative_wake_up", "urcu_adaptative_busy_wait", "call_rcu_wait", "call_rcu_wake_up", "call_rcu_completion_wait", "call_rcu_completion_wake_up", "wake_call_rcu_thread", "_cds_wfcq_node_init", "_call_rcu", "futex_wait", "futex_wake_up", "wake_worker_thread", "wake_up_defer", "wait_defer", "urcu_wake_all_waiters", "memb.smp_mb_master", "memb.wait_gp", "urcu_common_reader_state", "memb.wait_for_readers", "memb.synchronize_rcu", "mb.smp_mb_master", "mb.wait_gp", "mb.wait_for_readers", "mb.synchronize_rcu", "qsbr.wait_gp", "urcu_qsbr_reader_state", "qsbr.wait_for_readers", "qsbr.urcu_qsbr_read_ongoing", "qsbr.urcu_qsbr_thread_offline", "qsbr.urcu_qsbr_thread_online", "qsbr.urcu_qsbr_synchronize_rcu", "bp.smp_mb_master", "urcu_bp_reader_state", "bp.wait_for_readers", "bp.urcu_bp_synchronize_rcu"]
+def translated : List String := ["urcu_memb_smp_mb_slave", "_urcu_memb_read_lock_update", "_urcu_memb_read_lock", "urcu_common_wake_up_gp", "_urcu_memb_read_unlock_update_and_wakeup", "_urcu_memb_read_unlock", "_urcu_memb_read_ongoing", "_urcu_mb_read_lock_update", "_urcu_mb_read_lock", "_urcu_mb_read_unlock_update_and_wakeup", "_urcu_mb_read_unlock", "_urcu_mb_read_ongoing", "urcu_bp_smp_mb_slave", "_urcu_bp_read_lock_update", "_urcu_bp_read_lock", "_urcu_bp_read_unlock", "_urcu_bp_read_ongoing", "_urcu_qsbr_read_lock", "_urcu_qsbr_read_unlock", "_urcu_qsbr_read_ongoing", "urcu_qsbr_wake_up_gp", "_urcu_qsbr_quiescent_state_update_and_wakeup", "_urcu_qsbr_quiescent_state", "_urcu_qsbr_thread_offline", "_urcu_qsbr_thread_online", "___cds_wfs_end", "_cds_wfs_push", "___cds_wfs_node_sync_next", "___cds_wfs_pop", "___cds_wfs_pop_all", "_cds_wfs_empty", "___cds_lfs_empty_head", "_cds_lfs_push", "___cds_lfs_pop", "___cds_lfs_pop_all", "_cds_lfs_empty", "___cds_wfcq_append", "_cds_wfcq_enqueue", "_cds_wfcq_empty", "___cds_wfcq_busy_wait", "___cds_wfcq_node_sync_next", "_cds_wfcq_node_init_atomic", "___cds_wfcq_dequeue_with_state", "___cds_wfcq_splice", "_cds_lfq_enqueue_rcu", "make_dummy", "enqueue_dummy", "rcu_free_dummy", "_cds_lfq_dequeue_rcu", "urcu_ref_get_safe", "urcu_ref_put", "urcu_ref_get_unless_zero", "urcu_wait_add", "urcu_move_waiters", "urcu_wait_set_state", "urcu_wait_node_init", "urcu_adaptative_wake_up", "urcu_adaptative_busy_wait", "call_rcu_wait", "call_rcu_wake_up", "call_rcu_completion_wait", "call_rcu_completion_wake_up", "wake_call_rcu_thread", "_cds_wfcq_node_init", "_call_rcu", "futex_wait", "futex_wake_up", "wake_worker_thread", "wake_up_defer", "wait_defer", "_cds_wfs_first", "___cds_wfs_next", "_cds_wfs_next_blocking", "urcu_wake_all_waiters", "memb.smp_mb_master", "memb.wait_gp", "urcu_common_reader_state", "memb.wait_for_readers", "memb.synchronize_rcu", "mb.smp_mb_master", "mb.wait_gp", "mb.wait_for_readers", "mb.synchronize_rcu", "qsbr.wait_gp", "urcu_qsbr_reader_state", "qsbr.wait_for_readers", "qsbr.urcu_qsbr_read_ongoing", "qsbr.urcu_qsbr_thread_offline", "qsbr.urcu_qsbr_thread_online", "qsbr.urcu_qsbr_synchronize_rcu", "bp.smp_mb_master", "urcu_bp_reader_state", "bp.wait_for_readers", "bp.urcu_bp_synchronize_rcu"]
 end UrcuVerif.Gen.Src
